@@ -664,6 +664,17 @@ def proof_part(prop, res):
                 res["theorems"] += ["%s.%s" % (gen_check.BRIDGES[kd][2], t) for t in r["theorems"]]
             else:
                 res["broken"].append(dict(what=r["what"] + " no longer checks", detail=r["detail"][-2500:], container=kd))
+    if res["tier"] == "thorough" and prop not in ("C06", "C07"):
+        import concurrent.futures
+        kds = [k for k, v in res["extra"].get("source_translation", {}).items() if v["ok"]]
+        with concurrent.futures.ThreadPoolExecutor(max_workers=5) as ex:
+            for kd, (ok_, summ) in zip(kds, ex.map(lambda k: gen_check.coqchk(k, BUILD, COQ), kds)):
+                res["obligations"] += 1
+                res["extra"].setdefault("coqchk", {})["bridge:" + kd] = summ
+                if ok_:
+                    res["discharged"] += 1
+                else:
+                    res["broken"].append(dict(what="coqchk does not accept the bridge of %s" % kd, detail=summ, container=kd))
     if not ok:
         # some file of the development does not compile: if it is one this property depends on, the .vo test above caught it
         res["coq_log_tail"] = lg[-1500:]
